@@ -7,6 +7,9 @@ class IndentPass(AbstractPass):
         return self.check_external_program('clang-format')
 
     def new(self, test_case, _=None):
+        # validate the argument in the main process (transform runs in a worker)
+        if self.arg not in ['regular', 'final']:
+            raise UnknownArgumentError(self.__class__.__name__, self.arg)
         return 0
 
     def advance(self, test_case, state):
